@@ -22,36 +22,53 @@ def splitTok (sep : String) (ws : List String) : List (List String) :=
 def stripPrefix? (s pre : String) : Option String :=
   if s.startsWith pre then some (s.drop pre.length).toString else none
 
-/-- parse one 5-token trace event into (tid, event, observedLoadValue?) -/
-def parseEv (ws : List String) : Option (Nat × Ev) :=
+/-- does the ordering (as the shim prints it) include acquire / release?  `none` = not an ordering -/
+def acqOf (o : String) : Option Bool :=
+  if o == "acq" || o == "acqrel" || o == "sc" then some true
+  else if o == "rlx" || o == "rel" then some false else none
+def relOf (o : String) : Option Bool :=
+  if o == "rel" || o == "acqrel" || o == "sc" then some true
+  else if o == "rlx" || o == "acq" then some false else none
+
+/-- parse one 5-token trace event into (tid, event, configuration update).  An RMW event carries the memory
+ordering the running code passed to it; the update sets the ordering bit(s) `step` will consult for exactly this
+event to that ordering, so visibility (`raced`) is judged with the code's own orderings, call site by call site,
+without any table of positions. -/
+def parseEv (ws : List String) : Option (Nat × Ev × (Cfg → Cfg)) :=
   match ws with
   | [tid, op, a, b, r] => do
     let i ← tid.toNat?
-    if op == "call-lock" then pure (i, .callLock)
-    else if op == "call-try" then pure (i, .callTry)
-    else if op == "acq" then pure (i, .acq)
-    else if op == "rel" then pure (i, .rel)
-    else if op == "tryfail" then pure (i, .tryfail)
-    else if op == "data" then pure (i, .data)
-    else if op == "spur" then pure (i, .spur (r == "eintr"))
+    if op == "call-lock" then pure (i, .callLock, id)
+    else if op == "call-try" then pure (i, .callTry, id)
+    else if op == "acq" then pure (i, .acq, id)
+    else if op == "rel" then pure (i, .rel, id)
+    else if op == "tryfail" then pure (i, .tryfail, id)
+    else if op == "data" then pure (i, .data, id)
+    else if op == "spur" then pure (i, .spur (r == "eintr"), id)
     else if op == "cas0" then
-      if b != "0>1" then none else
+      if b != "0>1" then none else do
+      let so ← (a.splitOn "/").head?
+      let acq ← acqOf so
+      let upd : Cfg → Cfg := fun c => { c with lockAcq := acq, tryAcq := acq, cas2Acq := acq }
       match stripPrefix? r "ok", stripPrefix? r "fail" with
-      | some v, _ => do let v ← v.toNat?; pure (i, .cas true v)
-      | _, some v => do let v ← v.toNat?; pure (i, .cas false v)
+      | some v, _ => do let v ← v.toNat?; pure (i, .cas true v, upd)
+      | _, some v => do let v ← v.toNat?; pure (i, .cas false v, upd)
       | _, _ => none
-    else if op == "load0" then do let v ← r.toNat?; pure (i, .load v)
-    else if op == "swap0" then do let n ← b.toNat?; let o ← r.toNat?; pure (i, .swap n o)
+    else if op == "load0" then do let v ← r.toNat?; pure (i, .load v, id)
+    else if op == "swap0" then do
+      let n ← b.toNat?; let o ← r.toNat?
+      let acq ← acqOf a; let rel ← relOf a
+      -- a swap to a locked state is judged as an acquisition, a swap to 0 as the release
+      let upd : Cfg → Cfg := fun c => if n == 0 then { c with unlockRel := rel } else { c with swap2Acq := acq }
+      pure (i, .swap n o, upd)
     else if op == "fwait0" then do
       let v ← b.toNat?
-      if r == "park" then pure (i, .fwait v true) else if r == "eagain" then pure (i, .fwait v false) else none
+      if r == "park" then pure (i, .fwait v true, id) else if r == "eagain" then pure (i, .fwait v false, id) else none
     else if op == "fwake0" then do
       let n ← a.toNat?
-      if b == "-" then pure (i, .fwake n none) else do let j ← b.toNat?; pure (i, .fwake n (some j))
+      if b == "-" then pure (i, .fwake n none, id) else do let j ← b.toNat?; pure (i, .fwake n (some j), id)
     else none
   | _ => none
-
-def bit (s : String) : Option Bool := if s == "1" then some true else if s == "0" then some false else none
 
 def allStuck (s : St) : Bool :=
   (List.range s.n).all (fun i => !(enabled (s.ths i))) && (List.range s.n).any (fun i => isParked (s.ths i))
@@ -68,22 +85,23 @@ def replay (c : Cfg) : St → Nat → List (List String) → List Nat → String
       | _ =>
       match parseEv ev with
       | none => s!"reject {k} unparsable-event {ev}"
-      | some (i, e) =>
+      | some (i, e, upd) =>
         let strictOk := match e with
           | .load v => v == s.wval
           | _ => true
         if !strictOk then s!"reject {k} load-not-latest {ev} model-wval={s.wval}" else
-        match step c s i e with
+        match step (upd c) s i e with
         | none => s!"reject {k} model-thread-would-not-do {ev} model-wval={s.wval}"
         | some s' => replay c s' (k + 1) rest (if e == .acq then i :: acqs else acqs)
 
+/-- `mutex <spin budget> : prog | prog … :: event ; event …`  (orderings come with the events) -/
 def stepLine (_ : Unit) (line : String) : Unit × String :=
   let ws := Drv.words line
   match ws with
-  | "mutex" :: a :: b :: c :: d :: e :: sp :: ":" :: rest =>
-    match bit a, bit b, bit c, bit d, bit e, sp.toNat? with
-    | some a, some b, some c, some d, some e, some sp =>
-      let cfg : Cfg := ⟨a, b, c, d, e, sp⟩
+  | "mutex" :: sp :: ":" :: rest =>
+    match sp.toNat? with
+    | some sp =>
+      let cfg : Cfg := ⟨true, true, true, true, true, sp⟩
       match splitTok "::" rest with
       | [progToks, evToks] =>
         match (splitTok "|" progToks).mapM parseProg with
@@ -92,7 +110,7 @@ def stepLine (_ : Unit) (line : String) : Unit × String :=
           let evs := (splitTok ";" evToks).filter (· ≠ [])
           ((), replay cfg (init progs) 0 evs [])
       | _ => ((), "bad-op")
-    | _, _, _, _, _, _ => ((), "bad-op")
+    | none => ((), "bad-op")
   | _ => ((), "bad-op")
 
 def main : IO Unit := Drv.run stepLine ()
